@@ -164,13 +164,15 @@ def subset_case(seed):
     ndim = rng.choice([1, 2, 3])
     ncpu = rng.choice([1, 2, 3])
     levelmin, levelmax = 2, rng.choice([2, 3])
-    hydro_vars = ["density"] + ["velocity_%s" % c for c in "xyz"[:ndim]] + ["pressure", "scalar_00"]
+    hydro_vars = ["density"] + ["velocity_%s" % c for c in "xyz"[:ndim]] + ["pressure", "scalar_1", "scalar_10", "scalar_11"]
     tmp = tempfile.mkdtemp(prefix="c13_")
     try:
         octs = rw.build_tree(ndim, levelmin, levelmax, rng=rng, ncpu=ncpu, variables=hydro_vars)
         npart = {c: rng.randint(0, 6) for c in range(1, ncpu + 1)}
         particles = {c: {"mass": np.arange(n, dtype="float64") + 10 * c, "identity": (np.arange(n) + 100 * c).astype("int32"),
-                         "position_x": np.linspace(0.1, 0.9, n) if n else np.zeros(0)} for c, n in npart.items()}
+                         "family": (np.arange(n) % 5).astype("int8"),
+                         "position_x": np.linspace(0.1, 0.9, n) if n else np.zeros(0),
+                         "birth_time": np.arange(n, dtype="float64") * 0.5} for c, n in npart.items()}
         rw.write_output(tmp, 1, octs, ndim=ndim, ncpu=ncpu, levelmin=levelmin, levelmax=levelmax, hydro_vars=hydro_vars,
                         ghosts=rw.random_ghosts(octs, ncpu, rng) if ncpu > 1 else None, particles=particles)
         with contextlib.redirect_stdout(io.StringIO()):
@@ -182,7 +184,9 @@ def subset_case(seed):
         for k in range(4):
             sub = rng.sample(mesh_names, rng.randint(1, min(6, len(mesh_names))))
             trials.append({"mesh": sub})
-        trials += [["mesh"], ["part"], {"part": False}, {"mesh": False}, {"part": ["mass"]}, {"mesh": ["density"], "part": ["identity"]}]
+        trials += [["mesh"], ["part"], {"part": False}, {"mesh": False}, {"part": ["mass"]}, {"mesh": ["density"], "part": ["identity"]},
+                   {"part": ["position_x"]}, {"part": ["birth_time"]}, {"part": ["mass", "birth_time"]}, {"part": ["family", "birth_time"]},
+                   {"mesh": ["scalar_1"]}, {"mesh": ["density", "scalar_1"]}]
         for sel in trials:
             with contextlib.redirect_stdout(io.StringIO()):
                 ds = osyris.RamsesDataset(1, path=tmp).load(select=sel)
@@ -343,14 +347,16 @@ def level_case(seed):
         rw.write_output(tmp, 1, octs, ndim=ndim, ncpu=ncpu, levelmin=levelmin, levelmax=levelmax, hydro_vars=hydro_vars,
                         ghosts=rw.random_ghosts(octs, ncpu, rng) if ncpu > 1 else None)
         desc = {"seed": seed, "ndim": ndim, "ncpu": ncpu, "levels": [levelmin, levelmax]}
-        for kind in ("le", "lt", "window"):
-            k = rng.randint(levelmin, levelmax)
+        for kind in ("le", "lt", "window", "le", "eq"):
+            k = rng.randint(1, levelmax)  # caps below levelmin included: the coarse cells tile the domain
             if kind == "le":
                 f, L, acc = (lambda l, k=k: l <= k), k, (lambda l, k=k: l <= k)
             elif kind == "lt":
-                if k <= levelmin:
-                    k = levelmin + 1
+                if k <= 1:
+                    k = 2
                 f, L, acc = (lambda l, k=k: l < k), k - 1, (lambda l, k=k: l < k)
+            elif kind == "eq":
+                f, L, acc = (lambda l, k=k: l == k), k, (lambda l, k=k: l == k)
             else:
                 f, L, acc = (lambda l, k=k: (l > k - 2) & (l < k + 1)), k, (lambda l, k=k: k - 2 < l < k + 1)
             with contextlib.redirect_stdout(io.StringIO()):
@@ -581,9 +587,14 @@ def history_case(seed, length=3):
             "cpu_list": {"cpu_list": [2, 3]},
             "position": {"select": {"mesh": {"position_x": lambda x: x < osyris.Array(0.3, unit="cm")}}},
             "sorted": {"sortby": {"part": "identity"}},
+            "nothing": {"select": {"mesh": {"density": lambda d: d < osyris.Array(-1.0, unit="g/cm**3")}}},
+            "groups_list": {"select": ["mesh", "part"]},
         }
         names = list(shapes)
         hist = [rng.choice(names) for _ in range(length)]
+        if length == 2:
+            # the ordered pairs are enumerated systematically: seed selects the pair
+            hist = [names[(seed // len(names)) % len(names)], names[seed % len(names)]]
         quiet = contextlib.redirect_stdout(io.StringIO())
         with quiet:
             ds = osyris.RamsesDataset(1, path=tmp)
@@ -627,11 +638,11 @@ def replay_history(case, model, rec):
 
 
 def sweep_c15(tier, seed):
-    n = 20 if tier == "quick" else 400
+    n = 121 + (10 if tier == "quick" else 400)  # all 11 x 11 ordered pairs, then random histories of length 3
     viol = []
     for k in range(n):
         try:
-            r = history_case(seed * 5003 + k, length=2 + (k % 2))
+            r = history_case(k if k < 121 else seed * 5003 + k, length=2 if k < 121 else 3)
         except Exception as e:
             import traceback
 
